@@ -57,13 +57,32 @@ ScanUp(v, want, budget, acc) ==
        ELSE ScanUp(NAdd(v, NFromNat(1)), want, budget - 1, acc)
 Boundaries == <<P, NPow2(252), NPow2(248), NPow2(240), NPow2(224), NPow2(192), NPow2(128), NPow2(64), NPow2(32), NPow2(16), NPow2(8)>>
 EdgeValid == FlattenSeq([i \in 1..Len(Boundaries) |-> ScanDown(Boundaries[i], 4, 40, <<>>) \o ScanUp(Boundaries[i], 3, 40, <<>>)])
-Cases == FlattenSeq([i \in 1..NBases |-> Mutations(Bases[i])]) \o Absolutes \o EdgeValid
+ASSUME TLCSet(33, EdgeValid)
+EdgeValidC == TLCGet(33)
+\* non-canonical aliases v + q of the edge-valid encodings (a carry out of a low limb is what a limb-wise
+\* comparison with the modulus can get wrong)
+EdgeAliases == FlattenSeq([i \in 1..Len(EdgeValidC) |->
+   LET w == NAdd(EdgeValidC[i].v, P) IN IF NLess(w, Two256) THEN << [kind |-> "alias_edge", v |-> Fit32(w)] >> ELSE <<>>])
+\* comparison boundaries: the modulus with one 32-bit limb moved by +-1 and the lower limbs all zero / all ones,
+\* and the first accepted values just below each of those
+LimbStep(j) == NPow2(32 * j)
+CmpBoundary == FlattenSeq([j1 \in 1..8 |->
+   LET j == j1 - 1
+       up == NAdd(P, LimbStep(j))
+       dn == NSub(P, LimbStep(j))
+       lowmask == NSub(LimbStep(j), NFromNat(1))
+       dnOnes == NAdd(NSub(dn, NMod(dn, LimbStep(j))), lowmask)          \* limb j of q minus 1, lower limbs all ones
+       upZero == NSub(up, NMod(up, LimbStep(j)))                          \* limb j of q plus 1, lower limbs zero
+   IN (IF NLess(up, Two256) THEN << [kind |-> "cmp", v |-> Fit32(up)], [kind |-> "cmp", v |-> Fit32(upZero)] >> ELSE <<>>)
+      \o << [kind |-> "cmp", v |-> Fit32(dn)], [kind |-> "cmp", v |-> Fit32(dnOnes)] >>
+      \o ScanDown(NAdd(dn, NFromNat(1)), 2, 12, <<>>) \o ScanDown(NAdd(dnOnes, NFromNat(1)), 2, 12, <<>>)])
+Cases == FlattenSeq([i \in 1..NBases |-> Mutations(Bases[i])]) \o Absolutes \o EdgeValidC \o EdgeAliases \o CmpBoundary
 PlanRec(i) == LET c == Cases[i] r == DecodeBytes(c.v) IN
   [k |-> "decin", kind |-> c.kind, b |-> c.v, entries |-> IF i <= 300 \/ c.kind = "abs" THEN "all" ELSE "one",
    ok |-> r.ok, err |-> r.err, cls |-> DecodeClass(c.v)]
 ASSUME TLCSet(32, Cases)
 ASSUME ndJsonSerialize(IOEnv.PLAN_OUT, [i \in 1..Len(TLCGet(32)) |-> LET c == TLCGet(32)[i] r == DecodeBytes(c.v) IN
-         [k |-> "decin", kind |-> c.kind, b |-> c.v, entries |-> IF i <= 300 \/ c.kind \in {"abs", "edge_valid"} THEN "all" ELSE "one",
+         [k |-> "decin", kind |-> c.kind, b |-> c.v, entries |-> IF i <= 300 \/ c.kind \in {"abs", "edge_valid", "alias_edge", "cmp"} THEN "all" ELSE "one",
           ok |-> r.ok, err |-> r.err, cls |-> DecodeClass(c.v)]])
 ASSUME PrintT(<<"PLAN-WRITTEN", Len(TLCGet(32))>>)
 VARIABLE x
